@@ -126,7 +126,7 @@ def check_domain(d, how, full=True):
                     how, w, nm, float(np.max(np.abs(a - c))), float(64 * np.finfo(float).eps * np.max(bd)))))
         if pr:
             return pr
-    # (i) the same numbers handed over as float32 / int / list give the same result as float64 input;
+    # (i) the same numbers handed over as a float32 array give the same result as float64 input;
     # (ii) a caller re-using one buffer: transform X, scale X in place by 2, transform X again -> exactly twice
     #      the first result, and the array returned first is still what it was (results do not alias each other)
     x = np.arange(1, L + 1, dtype=float)
@@ -135,7 +135,7 @@ def check_domain(d, how, full=True):
     for which in (0, 1):
         fn = d.to_fourier if which == 0 else d.to_real
         nm = fn.__name__
-        for label, arr in (('float32', v32), ('int64', vint), ('list', [float(t) for t in vint])):
+        for label, arr in (('float32', v32),):        # documented argument type: float ndarray (any float width)
             want = fn(np.asarray(arr, dtype=np.float64))
             got = np.asarray(fn(arr))
             sc = max(1e-300, float(np.max(np.abs(want))))
